@@ -172,6 +172,10 @@ WITNESSES = [
     ('meta-enddef', 2, 2, 'CASE w5 enddef_ rec safe=0 hcoll=1 aggr=0 indep=0 nr=2 tmo=12 | - | E einval'),
     ('safe-fill', -1, 3, 'CASE w6 fill_var_rec rec safe=1 hcoll=0 aggr=0 indep=0 nr=2 tmo=12 | V 3 | E notfill | V 5'),
     ('F2-aggr', 0, 3, 'CASE w7 put_vars rec safe=0 hcoll=0 aggr=1 indep=0 nr=2 tmo=12 | V 3 | E stride | V 4'),
+    ('F2-badvarid', 3, 2, 'CASE w8 put_vara rec safe=0 hcoll=0 aggr=0 indep=0 nr=2 tmo=12 | E notvar | V 3'),
+    # vardGuard (index 4) is not about matching: under NC_HCOLL a zero-length vard whose filetype reaches record 0 makes
+    # root rewrite numrecs (one more collective write) iff getput_vard advances numrecs for requests that write nothing
+    ('vard-guard', 4, 2, 'CASE w9 put_vard rec safe=0 hcoll=1 aggr=0 indep=0 nr=0 tmo=12 | Z | Z'),
 ]
 
 
@@ -239,8 +243,13 @@ def lean_model(drv, lines, rp, lays):
     return out
 
 
-def trigger_sig(case):
+def trigger_sig(case, model=None, rps='00000'):
     api = case['api']
+    if api.startswith('put_') and model is not None and rps[0] == '1':
+        # the proposed F2 repair is in the tree: what is left are the ranks whose variable ID is unusable
+        trig = [case['ins'][r] for r, (_, _, t) in enumerate(model['ranks']) if t]
+        if trig and all(i in ('E notvar', 'E global') for i in trig):
+            return 'put_all-recvar-bad-varid-zero-path-skips-numrecs-allreduce'
     if api.startswith('put_vard'):
         return 'put_vard_all-recvar-argerr-zero-path-skips-numrecs-allreduce'
     if api.startswith('put_'):
@@ -252,7 +261,7 @@ def trigger_sig(case):
     return 'unmatched-collectives:%s' % api
 
 
-def judge(case, model, obs, V, stats):
+def judge(case, model, obs, V, stats, rps='00000'):
     """compare one case; returns (tie_diff or None).  Property failures go to V.failing_input."""
     n = case['n']
     cid = case['id']
@@ -316,7 +325,7 @@ def judge(case, model, obs, V, stats):
         tie = 'implementation deadlocks, model completes'
     stats['prop_fail' if prop_fail else 'ok'] = stats.get('prop_fail' if prop_fail else 'ok', 0) + 1
     if prop_fail:
-        sig = trigger_sig(case) if (not model['completed'] and tie is None and any(t for _, _, t in model['ranks'])) else \
+        sig = trigger_sig(case, model, rps) if (not model['completed'] and tie is None and any(t for _, _, t in model['ranks'])) else \
             'unmatched-collectives:%s:%s' % (case['api'], '+'.join(sorted(set(i.split()[0] + (i.split()[1] if i[0] in 'ED' and len(i.split()) > 1 else '') for i in case['ins']))))
         V.failing_input(sig, prop_fail, dict(case=desc, ranks=n, observed={str(k): v for k, v in R.items()}, hung={str(k): v for k, v in H.items()},
                                             harness='harness/c08_coll.c', how='mpiexec -n %d c08_coll <script with this line> <dir>' % n))
@@ -379,7 +388,7 @@ def run_check(tier, seed):
         cases = gen_cases(rng, tier, ns)
         lays = {}
         # which cases may leave the common sequence (judged with the unrepaired model: a superset for any tree)
-        model1 = lean_model(drv, [c['line'] for c in cases], '000', lays)
+        model1 = lean_model(drv, [c['line'] for c in cases], '00000', lays)
         risky, calm = [], []
         for c in cases:
             m = model1.get(c['id'])
@@ -423,19 +432,21 @@ def run_check(tier, seed):
             obs.update(res)
         wres = {k: f.result() for k, f in wf.items()}
         pool.shutdown()
-        rp = [None, None, None]
+        rp = [None, None, None, None, None]
         for name, idx, n, line in WITNESSES:
             if idx < 0:
                 continue
             cid = line.split()[1]
             o = wres[name][0].get(cid)
             clean = bool(o) and len(o['R']) == n and not o['H'] and len(set(tuple(o['R'][r][1]) for r in o['R'])) == 1
+            if idx == 4:
+                clean = clean and o['R'][0][1] == ['setView', 'writeAll', 'allreduce']
             if rp[idx] is None:
                 rp[idx] = clean
             elif rp[idx] != clean:
                 rp[idx] = False     # repaired at one site only: treat as unrepaired, the differing site shows up as a tie difference
         rps = ''.join('1' if x else '0' for x in rp)
-        log('[S4] repairs present in this tree (zeroPathNumrecs, fillVarRecErr, metaErrJoins) = %s' % rps)
+        log('[S4] repairs present in this tree (zeroPathNumrecs, fillVarRecErr, metaErrJoins, zeroPathBadVarid, vardGuard) = %s' % rps)
         for cid, o in obs.items():
             if o.get('L'):
                 lays[cid] = o['L']
@@ -444,7 +455,7 @@ def run_check(tier, seed):
         log('[S4] %d cases generated, %d run on the real library (%d predicted unmatched, run singly) in %.1fs' % (len(cases), len(ran), len(risky_run), t1.s()))
         stats, tie_diffs, distinct, dist = {}, [], set(), {}
         for c in ran:
-            tie = judge(c, model.get(c['id']), obs.get(c['id']), V, stats)
+            tie = judge(c, model.get(c['id']), obs.get(c['id']), V, stats, rps)
             if tie:
                 tie_diffs.append((c['line'], tie))
             key = c['line'].split(' ', 2)[2]
@@ -469,7 +480,7 @@ def run_check(tier, seed):
                 wl[w['id']] = o['L']
         wmodel = lean_model(drv, [w['line'] for w in wcases], rps, wl)
         for w in wcases:
-            tie = judge(w, wmodel.get(w['id']), wres[w['name']][0].get(w['id']), V, stats)
+            tie = judge(w, wmodel.get(w['id']), wres[w['name']][0].get(w['id']), V, stats, rps)
             if tie:
                 tie_diffs.append((w['line'], tie))
         nev = len(ran) + len(wcases)
